@@ -423,6 +423,15 @@ func checkC15(run *mon.Run, rng *mon.Rand, thorough bool) {
 					if res.Class != sim.OK {
 						enabled = !enabled
 					}
+					if o.ClientID != "" && rr.Chance(50) {
+						// the executor tries to move the chain to another L1 light client, directly and in two steps
+						for _, id := range mon.Pick(rr, [][]string{{"07-tendermint-9"}, {"", "07-tendermint-9"}, {""}}) {
+							r2 := o.L2.Deliver(opchildtypes.NewMsgSetBridgeInfo(o.Executors[0].String(), o.BridgeInfo(id, enabled)))
+							log = append(log, fmt.Sprintf("set_bridge_info l1_client_id=%q -> %s", id, r2.Class))
+							run.Evaluations++
+							run.Check("C15.host_set_only_replaced_by_higher_height_from_client", r2.Class != sim.OK, "c15.client_binding_repointed", tail(log, 15), "the configured L1 light client %q was replaced by %q: host validator sets would now be taken from another client", o.ClientID, id)
+						}
+					}
 				case x < 93:
 					c.hostRefresh(o, rr, &log)
 				default:
